@@ -175,6 +175,7 @@ def build_item(item, tmpl_path, canary=False):
         return loops
 
     rewrites = []
+    lost_hints = []
     for d in item['dirs']:
         words = d['d'].split()
         kw = words[0]
@@ -188,11 +189,19 @@ def build_item(item, tmpl_path, canary=False):
             edits.append((p, p, '\n' + ins_text + '\n', 'ins', meta))
         elif kw == 'entry':
             edits.append((bo_rel + 1, bo_rel + 1, '\n' + ins_text + '\n', 'ins', meta))
-        elif kw in ('before', 'after'):
+        elif kw in ('before', 'after', 'before?', 'after?'):
             n = int(words[1])
             rx = d['d'].split(None, 2)[2]
-            ls, le = _nth_line_match(text, n, rx, what)
-            p = ls if kw == 'before' else le
+            try:
+                ls, le = _nth_line_match(text, n, rx, what)
+            except ExtractError:
+                if kw.endswith('?'):
+                    # an optional proof hint whose anchor statement is gone: verify without it; a failure of
+                    # this function is then only a *weak* verdict (see verus_run / check)
+                    lost_hints.append(d['d'])
+                    continue
+                raise
+            p = ls if kw.startswith('before') else le
             edits.append((p, p, ins_text + '\n', 'ins', meta))
         elif kw == 'loop':
             n = int(words[1])
@@ -341,7 +350,7 @@ def build_item(item, tmpl_path, canary=False):
             rewrites.append({'D': sg.meta['D'], 'old': sg.meta.get('old', '')[:200], 'new': sg.text[:200]})
     info = {
         'item': what, 'file': relfile, 'first_line': first_line, 'sha256': sha(text),
-        'props': props, 'rewrites': rewrites, 'tline': item['line'],
+        'props': props, 'rewrites': rewrites, 'tline': item['line'], 'lost_hints': lost_hints,
         'name': comps[-1].split(None, 1)[-1] if ' ' in comps[-1] else comps[-1],
         'path': comps,
     }
